@@ -16,7 +16,7 @@ OVERLAY_SRC = {"fs/source/verif_labels.go": "fs/source/verif_labels.go",
                "fs/source/verif_labels_test.go": "fs/source/verif_labels_test.go"}
 OVERLAY_SVC = {"fs/source/verif_labels.go": "fs/source/verif_labels.go",
                "service/verif_labels_cri_test.go": "service/verif_labels_cri_test.go"}
-INTERNAL = ("TamperLogExplains",)
+INTERNAL = ("TamperLogExplains", "ExtraKeepsPreset")
 ALLRD = '{"default", "cri", "chain"}'
 FORMULAS = ("AllLabelsValid", "RoundTrip", "NeighbourUrlsPositional", "PrefetchSizeRoundTrips", "MalformedMandatoryRejected")
 
@@ -48,6 +48,10 @@ def classify(c):
     parts = ["fl=" + c["fl"]]
     if c["tam"]:
         parts.append("tamper=" + "+".join("%s@%d" % (o["op"], o["key"]) for o in c["tam"]))
+    if any(e.get("pre") for e in man):
+        parts.append("preset")
+    if any(u >= 100000 for e in man for u in e["urls"]):
+        parts.append("boundary")
     if any(not e["isLayer"] for e in man):
         parts.append("nonlayer")
     if len({e["d"] for e in man}) < len(man):
@@ -69,7 +73,11 @@ def check(run):
                        "distinct by case content")
     run.assumptions += [
         "strings are abstracted to (length, token ids); URL/ref contents contain no ','",
-        "layer descriptors carry no pre-set containerd.io/snapshot/remote/* annotations before the handler runs",
+        "pre-set containerd.io/snapshot/remote/* annotations on layer descriptors are covered for 2-layer manifests (one or two keys, "
+        "foreign value); for the EXTRA handler, which keeps pre-set urls/urls.<j>/prefetch keys by design, the URL and prefetch clauses "
+        "are claimed only for keys that were not pre-set (the keeping is pinned by ExtraKeepsPreset + conformance)",
+        "label sizes next to the limit (4094..4097) are covered for urls and urls.<i> (i < 10); the layers labels cannot land there: "
+        "digest strings step the size by 72 bytes (4074 -> 4146), so a +-1 error in that loop is unobservable with valid digests",
         "equal digests have the same media type class; config digest differs from all layer digests",
         "image ref length <= 300 bytes (the writer does not validate the reference label; refs near 4 KiB are not modelled)",
         "an empty-string URL read back for an absent URL list ([\"\"]) counts as no URL (only consumer: ipfs.GetCID prefix match)",
@@ -89,6 +97,7 @@ def check(run):
         ("Labels_mc_long.cfg", {"MatchedOnly": "TRUE", "RefPfs": "{12}",
                                 "LongNs": "{55, 56, 57, 58, 59, 60}" if thorough else "{56, 57, 60}"}, "long"),
         ("Labels_mc_tamper.cfg", {"MatchedOnly": "TRUE", "MaxTamper": "1", "NVariants": "4", "RefPfs": "{12, 23}"}, "tamper1x4"),
+        ("Labels_mc_edge.cfg", {"MatchedOnly": "TRUE", "Readers": ALLRD if thorough else '{"default", "cri"}'}, "edge"),
     ]
     if thorough:
         plan.append(("Labels_mc_tamper.cfg", {"MatchedOnly": "TRUE", "MaxTamper": "2", "NVariants": "1", "RefPfs": "{12}"}, "tamper2x1"))
@@ -114,6 +123,8 @@ def check(run):
         for cfg, off, expect in (
                 ("Labels_mc_long.cfg", {"ValidateLayers": "FALSE", "LongNs": "{60}"}, ["AllLabelsValid"]),
                 ("Labels_mc_full.cfg", {"ValidateUrls": "FALSE", "MaxLayers": "2"}, ["AllLabelsValid"]),
+                ("Labels_mc_edge.cfg", {"CountSeparator": "FALSE"}, ["AllLabelsValid"]),
+                ("Labels_mc_edge.cfg", {"WriteEmptyUrlLabels": "FALSE"}, ["RoundTrip", "NeighbourUrlsPositional"]),
                 ("Labels_mc_long.cfg", {"WholeDigests": "FALSE", "LongNs": "{60}"}, ["RoundTrip"]),
                 ("Labels_mc_full.cfg", {"UrlIdx": '"child"'}, ["RoundTrip", "NeighbourUrlsPositional"]),
                 ("Labels_mc_full.cfg", {"ReaderSkipsTarget": "FALSE", "MaxLayers": "2"}, ["RoundTrip"]),
@@ -202,7 +213,7 @@ def check(run):
 
     def nontrivial(c, e):
         return bool(c["tam"]) or any(not x["isLayer"] for x in c["man"]) or len({x["d"] for x in c["man"]}) < len(c["man"]) \
-            or any(x["urls"] for x in c["man"]) or len(c["man"]) > 50
+            or any(x["urls"] for x in c["man"]) or len(c["man"]) > 50 or any(x.get("pre") for x in c["man"])
     run.cov["distinct_nontrivial"] += sum(1 for i in ok_ids if nontrivial(byid[i], evbyid[i]))
     run.cov["exhaustive"] = not drifts and not viols
     small = [e for e in events if len(e["case"]["man"]) <= 3 and e["id"] in set(ok_ids)]
